@@ -104,6 +104,28 @@ impl<C: Cursor> ConcatenatingCursor<C> {
         self.n() == o.n() && forall|i: int| 0 <= i < self.n() ==> (#[trigger] self.cursors@[i]).ents() == o.cursors@[i].ents()
     }
 
+//@ extract sst/src/concat_cursor.rs | impl ConcatenatingCursor<C> :: fn new
+//@ ret r
+//@ pre <<
+        1 <= cursors@.len() <= 0x7fff_ffff_ffff_ffff,
+        forall|i: int| 0 <= i < cursors@.len() ==> (#[trigger] cursors@[i]).wf_base(),
+        ordered(cents(cursors@)),
+//@ >>
+//@ post <<
+        r is Ok ==> r->Ok_0.wf() && r->Ok_0.pos() == -1 && r->Ok_0.bs() == cents(cursors@),
+//@ >>
+//@ bodystart <<
+        let ghost c0 = cursors@;
+//@ >>
+//@ after `cursors[0].seek_to_first()?;` <<
+        proof {
+            assert(cents(cursors@) =~= cents(c0)) by {
+                assert forall|i: int| 0 <= i < cursors@.len() implies #[trigger] cursors@[i].ents() == c0[i].ents() by { }
+            }
+        }
+//@ >>
+//@ end
+
 //@ extract sst/src/concat_cursor.rs | impl ConcatenatingCursor<C> :: fn reposition
 //@ ret r
 //@ pre <<
